@@ -317,7 +317,12 @@ class Env:
 def run_cli_many(jobs):
     """jobs: list of (dir, db, argv) -> list of (rc, out, err), 16-way parallel, one fresh interpreter each"""
     def one(j):
-        d, db, argv = j
+        d, db, argv = j[:3]
+        if len(j) > 3 and j[3]:          # a two-command history in one process (harness/decode_history.py)
+            spec = os.path.join(d, "history.json")
+            with open(spec, "w") as f:
+                json.dump(dict(j[3], argv=argv), f)
+            return _py(["-m", "harness.decode_history", spec], cwd=d, extra_env={"MT_DB_PATH": db})
         return _py(["-c", RUNNER] + argv, cwd=d, extra_env={"MT_DB_PATH": db})
     with ThreadPoolExecutor(max_workers=common.NCPU) as ex:
         return list(ex.map(one, jobs))
@@ -386,8 +391,8 @@ def gen_scenarios(tier, rnd, env):
                 store.insert(min((rot + 2 * k) % (len(store) + 1), len(store)), t)
             res.append(store)
         return res
-    if quick:       # three stale rows per store: every kind occurs, at the front, between valid rows and at the end
-        for j, store in enumerate(grouped(stale, 3)):
+    if quick:       # four stale rows per store: every kind occurs, at the front, between valid rows and at the end
+        for j, store in enumerate(grouped(stale, 4)):
             out.append(sc(WALL, store, verbose=bool(j % 2), sample_count=(j % 4 == 1), family="every-kind-every-position"))
     else:
         for i, t in enumerate(stale):
@@ -397,12 +402,12 @@ def gen_scenarios(tier, rnd, env):
                                   family="every-kind-every-position"))
     # (b) all subsets and orders of a 4-row alphabet (two valid... one valid, three stale kinds)
     perms = [list(p) for k in range(0, 5) for p in itertools.permutations(S4, k)]
-    chosen = rnd.sample(perms, 8) if quick else perms
+    chosen = rnd.sample(perms, 6) if quick else perms
     for j, p in enumerate(chosen):
         out.append(sc(WALL, p, verbose=bool(j % 2), family="subsets-and-orders"))
     # (c) random longer stores over the whole pool, any world
     tags = mod_tags(env.pool)
-    for j in range(6 if quick else 150):
+    for j in range(4 if quick else 150):
         n = rnd.randrange(2, 9 if quick else 14)
         out.append(sc(rnd.randrange(0, nw - 1), rnd.sample(tags, n), verbose=rnd.random() < 0.5,
                       sample_count=rnd.random() < 0.4, cmd="apply" if rnd.random() < 0.25 else "stub", family="random"))
@@ -443,9 +448,9 @@ def gen_scenarios(tier, rnd, env):
     # (d'') `apply` with every stale kind in one store (all of them skipped, the valid rows applied)
     out.append(sc(WALL, tags_all_interleaved(env.pool, stale), cmd="apply", verbose=True, family="apply-every-kind"))
     out.append(sc(WALL, tags_all_interleaved(env.pool, stale), cmd="apply", sample_count=True, family="apply-every-kind"))
-    # ... and each stale kind alone between valid rows (quick: six kinds per store)
+    # ... and each stale kind alone between valid rows (quick: eight kinds per store)
     if quick:
-        for j, store in enumerate(grouped(list(reversed(stale)), 6)):
+        for j, store in enumerate(grouped(list(reversed(stale)), 8)):
             out.append(sc(WALL, store, cmd="apply", verbose=bool(j % 2), family="apply-every-kind"))
     else:
         for i, t in enumerate(stale):
@@ -478,7 +483,7 @@ def gen_scenarios(tier, rnd, env):
     # (d5) `stub --diff` (two passes of get_stub: the report appears twice), every world, a store with some valid rows and
     # a store with none, with and without -v / --ignore-existing-annotations
     cand = ["removed", "argcls", "nontype", "retcls", "cls", "yieldcls", "nt_opt_fn", "params_argcls"]
-    for w in range(nw - 1):
+    for w in ((W0, WALL, WTYPES) if quick else range(nw - 1)):
         muts = set(env.worlds[w]["muts"])
         st = [t for t in cand if fx.expected(t, muts) != "ok"][:3]
         some = ["ok2", "local"] + st[:2] + ["meth", "local2"] + st[2:] + ["ok_a"]
@@ -497,6 +502,20 @@ def gen_scenarios(tier, rnd, env):
         out.append(sc(w, store, sample_count=True, verbose=bool(j), family="sample-count"))
         out.append(sc(w, list(reversed(store)), sample_count=True, verbose=not bool(j), cmd="apply", family="sample-count"))
     out.append(sc(W0, ["ok_a", "local", "ok_b", "local2", "sub_run", "base_run"], sample_count=True, family="sample-count"))
+    # (d7) a two-command history in ONE process: a command runs while a module / sub-package is missing, the files come
+    # back, the command of the scenario runs: it must behave as in a fresh process (nothing is remembered as missing)
+    def hist(s, remove, prime):
+        s["history"] = {"remove": remove, "prime_argv": prime}
+        s["family"] = "history-one-process"
+        return s
+    out += [
+        hist(sc(W0, ["ok_a", "gonemod_cls", "meth"]), ["fxpkg/gone.py"], ["stub", "fxpkg.mod"]),
+        hist(sc(W0, ["gone_g", "gone_g2"], module="fxpkg.gone", verbose=True), ["fxpkg/gone.py"], ["-v", "stub", "fxpkg.gone"]),
+        hist(sc(W0, ["ok_a", "subcls", "retcls", "local"], cmd="apply"), ["fxpkg/sub"], ["stub", "fxpkg.mod"]),
+        hist(sc(W0, ["leaf_f", "leaf_f2"], module="fxpkg.sub.leaf", sample_count=True), ["fxpkg/sub"], ["stub", "fxpkg.sub.leaf"]),
+        hist(sc(W0, ["top_tf", "topcls"], module="fxtop"), ["fxtop.py"], ["apply", "fxtop"]),
+        hist(sc(WTYPES, ["ok_a", "argcls", "meth"], verbose=True), ["fxpkg/kinds.py"], ["stub", "fxpkg.mod"]),
+    ]
     # (e) the unmutated package: the whole pool decodes except the local-scope function
     out.append(sc(W0, tags, sample_count=True, family="unmutated"))
     out.append(sc(WALL, tags, verbose=True, sample_count=True, family="whole-pool"))
@@ -550,7 +569,7 @@ def evaluate(env, scenarios, workname):
             d, db, rows2 = env.prepare(s["world"], s["module"], s["qualname"], p["tags2"])
             s2 = dict(s, verbose=False)
             second[key] = {"dir": d, "db": db, "rows2": rows2, "argv": cli_argv(s2)}
-    jobs = [(p["dir"], p["db"], cli_argv(p["s"])) for p in prepared]
+    jobs = [(p["dir"], p["db"], cli_argv(p["s"]), p["s"].get("history")) for p in prepared]
     keys2 = list(second)
     jobs += [(second[k]["dir"], second[k]["db"], second[k]["argv"]) for k in keys2]
     outs = run_cli_many(jobs)
@@ -589,7 +608,7 @@ def describe(env, p):
     s = p["s"]
     return (f"world(mutations)={env.worlds[s['world']]['muts']} rows inserted={p['inserted']} "
             f"(valid/stale by construction: {p['exp1']}) rows returned by the store query={p['tags1']} "
-            f"argv={cli_argv(s)} -> rc={p['obs1'][0]} stdout={p['obs1'][1][:300]!r} stderr={p['obs1'][2][-600:]!r}; "
+            f"argv={cli_argv(s)}{' AFTER, in the same process, ' + json.dumps(s['history']) if s.get('history') else ''} -> rc={p['obs1'][0]} stdout={p['obs1'][1][:300]!r} stderr={p['obs1'][2][-600:]!r}; "
             f"rows valid by construction alone {p['tags2']} -> rc={p['obs2'][0]} stdout={p['obs2'][1][:300]!r} stderr={p['obs2'][2][-300:]!r}")
 
 
